@@ -176,6 +176,17 @@ func c05Check(c c05Case) *Violation {
 		if pi := guard(func() { y = gg[0].Loc.Region().Locate(bareRC).Bytes() }); pi != nil {
 			return panicViolation("Locate(reverse complement)", pi)
 		}
+		// extraction from the records themselves (features and all) must not differ from extraction from their residues
+		var xr, yr []byte
+		if pi := guard(func() { xr = gf.Loc.Region().Locate(mk()).Bytes() }); pi != nil {
+			return panicViolation("Locate(original record)", pi)
+		}
+		if pi := guard(func() { yr = gg[0].Loc.Region().Locate(rc).Bytes() }); pi != nil {
+			return panicViolation("Locate(reverse-complemented record)", pi)
+		}
+		if !bytes.Equal(xr, x) || !bytes.Equal(yr, y) {
+			return viol("extract-record", "feature %s %s: extracted from the records %q / %q, from their bare residues %q / %q", f.label(), f.Loc, xr, yr, x, y)
+		}
 		m := modelExtract(den(f.Loc), orig)
 		if !bytes.Equal(x, m) {
 			return viol("extract-model", "feature %s %s on %q: Locate gives %q, the denotation gives %q", f.label(), f.Loc, orig, x, m)
